@@ -697,7 +697,8 @@ func (e *gnode) blockLines(l *glayout, ind string) string {
 			case s.e.isInlineable() && s.e.op != "pipe":
 				// right-hand side on the next line
 				in2 := ind + strings.Repeat(" ", l.indentDelta())
-				sb.WriteString(l.eol() + "\n" + in2 + gNoLeadInterp(s.e.inline(l)) + l.eol())
+				// (blank or comment-only lines may stand between the `=` and the right-hand side)
+				sb.WriteString(l.eol() + "\n" + l.between(in2) + in2 + gNoLeadInterp(s.e.inline(l)) + l.eol())
 			default:
 				// multi-line right-hand side starts on the next line, as a block of its own
 				in2 := ind + strings.Repeat(" ", l.indentDelta())
